@@ -6,8 +6,9 @@ package finalizers
 //
 // TestVerifC16ExecSkel extracts, with go/ast, what jwtFinalizer.Execute does with the signer and the cache —
 // calls of signer methods, cch.Get / cch.Set with the provenance of their key argument (which signer calls its
-// value derives from), AddHeaderForUpstream, returns — from jwt_finalizer.go as it is in the tree under test
-// (calls of other methods of the finalizer are inlined), together with the lock skeleton of jwt_signer.go.  The
+// value derives from), AddHeaderForUpstream, returns — from jwt_finalizer.go as it is in the tree under test,
+// one event list per path through Execute (an `if` containing a return forks; calls of other methods of the
+// finalizer are inlined and read straight-line), together with the lock skeleton of jwt_signer.go.  The
 // evaluator checks that this is exactly the critical-section structure the concurrent machine of C16/Conc.v
 // assumes (exec_shape).
 //
@@ -89,8 +90,92 @@ type c16XFrame struct {
 
 type c16XInterp struct {
 	methods map[string]*ast.FuncDecl // methods of jwtFinalizer
-	events  []c16XEv
+	events  []c16XEv                 // the path being walked
+	paths   [][]c16XEv               // finished paths through Execute
 	depth   int
+}
+
+// does the statement contain a return (not counting function literals)?
+func c16HasReturn(s ast.Stmt) bool {
+	found := false
+
+	ast.Inspect(s, func(n ast.Node) bool {
+		switch n.(type) {
+		case *ast.FuncLit:
+			return false
+		case *ast.ReturnStmt:
+			found = true
+		}
+
+		return !found
+	})
+
+	return found
+}
+
+func (fr *c16XFrame) cloneEnv() map[string]*c16XVal {
+	out := make(map[string]*c16XVal, len(fr.env))
+	for k, v := range fr.env {
+		nv := c16XUnion(*v)
+		out[k] = &nv
+	}
+
+	return out
+}
+
+// Execute itself is walked path by path: an `if` that contains a return forks (taken / not taken), a return ends
+// the path.  Everything else — and every inlined callee — is read straight-line.
+func (in *c16XInterp) runTop(fr *c16XFrame, stmts []ast.Stmt) {
+	if len(in.paths) > 256 {
+		return
+	}
+
+	for idx, s := range stmts {
+		rest := stmts[idx+1:]
+
+		switch t := s.(type) {
+		case *ast.IfStmt:
+			if !c16HasReturn(t) {
+				break
+			}
+
+			in.stmt(fr, t.Init)
+			in.one(fr, t.Cond)
+
+			savedEv := append([]c16XEv{}, in.events...)
+			savedEnv := fr.cloneEnv()
+
+			in.runTop(fr, append(append([]ast.Stmt{}, t.Body.List...), rest...))
+
+			in.events, fr.env = savedEv, savedEnv
+
+			var els []ast.Stmt
+
+			switch e := t.Else.(type) {
+			case *ast.BlockStmt:
+				els = e.List
+			case *ast.IfStmt:
+				els = []ast.Stmt{e}
+			}
+
+			in.runTop(fr, append(append([]ast.Stmt{}, els...), rest...))
+
+			return
+		case *ast.BlockStmt:
+			in.runTop(fr, append(append([]ast.Stmt{}, t.List...), rest...))
+
+			return
+		case *ast.ReturnStmt:
+			in.stmt(fr, t)
+			in.paths = append(in.paths, append([]c16XEv{}, in.events...))
+
+			return
+		}
+
+		in.stmt(fr, s)
+	}
+
+	in.paths = append(in.paths, append([]c16XEv{}, in.events...))
 }
 
 func c16IsIdent(e ast.Expr, name string) bool {
@@ -439,7 +524,7 @@ func (in *c16XInterp) stmt(fr *c16XFrame, s ast.Stmt) {
 	}
 }
 
-func c16ExtractExec(path string) ([]c16XEv, error) {
+func c16ExtractExec(path string) ([][]c16XEv, error) {
 	fset := token.NewFileSet()
 
 	file, err := parser.ParseFile(fset, path, nil, 0)
@@ -467,7 +552,7 @@ func c16ExtractExec(path string) ([]c16XEv, error) {
 
 	decl := in.methods["Execute"]
 	if decl == nil {
-		return []c16XEv{{Kind: "other", Name: "no method Execute of jwtFinalizer"}}, nil
+		return [][]c16XEv{{{Kind: "other", Name: "no method Execute of jwtFinalizer"}}}, nil
 	}
 
 	fr := &c16XFrame{top: true, env: map[string]*c16XVal{}}
@@ -482,9 +567,9 @@ func c16ExtractExec(path string) ([]c16XEv, error) {
 		}
 	}
 
-	in.block(fr, decl.Body)
+	in.runTop(fr, decl.Body.List)
 
-	return in.events, nil
+	return in.paths, nil
 }
 
 func c16CoqXEv(e c16XEv) string {
@@ -528,16 +613,18 @@ func TestVerifC16ExecSkel(t *testing.T) {
 		t.Fatalf("cannot parse jwt_signer.go: %v", err)
 	}
 
-	evs, err := c16ExtractExec("jwt_finalizer.go")
+	paths, err := c16ExtractExec("jwt_finalizer.go")
 	if err != nil {
 		t.Fatalf("cannot parse jwt_finalizer.go: %v", err)
 	}
 
-	tags := []string{fmt.Sprintf("exec-events:%d", len(evs))}
+	tags := []string{fmt.Sprintf("exec-paths:%d", len(paths))}
 
-	for _, e := range evs {
-		if e.Kind == "other" {
-			tags = append(tags, "exec-note:"+e.Name)
+	for _, evs := range paths {
+		for _, e := range evs {
+			if e.Kind == "other" {
+				tags = append(tags, "exec-note:"+e.Name)
+			}
 		}
 	}
 
@@ -548,8 +635,9 @@ func TestVerifC16ExecSkel(t *testing.T) {
 	if vf.Want(0) {
 		w.Put(vf.Obs{
 			I: 0, Stream: "exec-skeleton", In: map[string]any{"files": []string{"jwt_finalizer.go", "jwt_signer.go"}},
-			Out:        map[string]any{"execute": evs, "signer": methods},
-			Coq:        "(XS " + c16CoqSkeleton(methods) + " " + vf.CoqListOf(evs, c16CoqXEv) + ")",
+			Out: map[string]any{"execute_paths": paths, "signer": methods},
+			Coq: "(XS " + c16CoqSkeleton(methods) + " " +
+				vf.CoqListOf(paths, func(evs []c16XEv) string { return vf.CoqListOf(evs, c16CoqXEv) }) + ")",
 			Nontrivial: true, Tags: tags,
 		})
 	}
